@@ -24,6 +24,7 @@ def repo_root() -> Path:
 
 
 PKG_REL = 'src/mpservice'
+CLASS_LOOKUP_LOG: set | None = None  # selftest/engine.consulted_modules
 LOOKUP_LOG: set | None = None  # tools/gen_anchors.py sets this to record which functions the rules look up
 
 
@@ -279,6 +280,8 @@ class Module:
             raise AnchorError(f'{self.rel}: function `{qualname}` not found') from None
 
     def cls(self, qualname) -> ClassInfo:
+        if CLASS_LOOKUP_LOG is not None:
+            CLASS_LOOKUP_LOG.add(self.rel)
         try:
             return self.classes[qualname]
         except KeyError:
